@@ -117,6 +117,12 @@ func judgeC06(hst Hist) *h.Verdict {
 						if !rec.Known(sig) {
 							return v
 						}
+						// the account server was consulted (reservation exhausted) and could not grant in full:
+						// the indication is owed whatever volume was granted
+						if !mi.fui && pre.RatingType[u.RG] != 2 && op.Trig != "FINAL" && pre.Reserved[u.RG]-used*cost <= 0 {
+							v.Sig, v.Msg = "", ""
+							return v.Failf("no-final-unit-indication", "step %d rg %d: reservation exhausted, money buys %d < requested %d, granted %d, but no final-unit indication", step, u.RG, afford, u.Req, mi.granted)
+						}
 					} else if !mi.fui && pre.RatingType[u.RG] != 2 && op.Trig != "FINAL" {
 						// (a FINAL report asks for no further quota: debit mode applies from that very request)
 						// the indication is demanded on the response in which the limitation first applies
